@@ -104,12 +104,18 @@ func probeRunes(st cmap.Subtable) {
 }
 
 func sweepCmapTable(tbl cmap.Table) {
+	noLang := 0
 	for key := range tbl {
 		if st, err := tbl.Get(key); err == nil && st != nil {
 			probeRunes(st)
 			st.Encode(key.Language)
 		}
-		tbl.GetNoLang(key.PlatformID, key.EncodingID)
+		// (GetNoLang sorts all keys on every call: asked for a bounded number
+		// of keys, so that the sweep as a whole stays linear in the table)
+		if noLang < 16 {
+			tbl.GetNoLang(key.PlatformID, key.EncodingID)
+			noLang++
+		}
 	}
 	if st, err := tbl.GetBest(); err == nil && st != nil {
 		probeRunes(st)
